@@ -1028,7 +1028,8 @@ def gt_gate(ctx: Ctx) -> RuleResult:
     r.require(len(entries) >= 6, f"only {len(entries)} entries found")
     for f, call, a, kind in entries:
         origin = _graph_origin(ctx, f, a)
-        ok = origin in ("gate", "setup-only", "param", "gated-field")
+        parts = origin[len("mixed:"):].split(",") if origin.startswith("mixed:") else [origin]
+        ok = all(x in ("gate", "setup-only", "param", "gated-field") for x in parts)
         r.ob(ok, {"entry": f.short, "graph": norm_src(a), "origin": origin})
         if not ok:
             r.violate(f"{f.short}: graph reaches the scheduler without the debug gate: {norm_src(a)}", f.loc(call),
@@ -1057,21 +1058,45 @@ def gt_gate(ctx: Ctx) -> RuleResult:
     return r
 
 
+def _callee_of(ctx: Ctx, f: FuncInfo, call: ast.Call) -> Optional[str]:
+    for c, q in ctx.calls_in(f):
+        if c is call:
+            return q
+    return None
+
+
+def _mix(kinds) -> str:
+    flat: Set[str] = set()
+    for k in kinds:
+        flat |= set(k[len("mixed:"):].split(",")) if k.startswith("mixed:") else {k}
+    return flat.pop() if len(flat) == 1 else "mixed:" + ",".join(sorted(flat))
+
+
 def _graph_origin(ctx: Ctx, f: FuncInfo, a: ast.AST, depth: int = 0) -> str:
     if isinstance(a, ast.Call) and dotted(a.func) in ("deepcopy", "copy") and a.args:
         return _graph_origin(ctx, f, a.args[0], depth)
     if isinstance(a, ast.Call) and isinstance(a.func, ast.Attribute):
         if a.func.attr == "extend_graph_with_debug_nodes":
             return "gate"
+        q = _callee_of(ctx, f, a)
+        if q is not None and q in _setup_filter_funcs(ctx):
+            return "setup-only"
         if a.func.attr == "_pre_setup":
-            return "setup-only" if _pre_setup_filters(ctx) else "unfiltered _pre_setup"
+            return "unfiltered _pre_setup"
     if isinstance(a, ast.Name):
         params = [x.arg for x in f.node.args.posonlyargs + f.node.args.args + f.node.args.kwonlyargs]
         asg = [n for n in ctx.reaching_defs(f, a.id, a) if isinstance(n, ast.Assign)]
         if asg and depth < 3:
-            kinds = {_graph_origin(ctx, f, n.value, depth + 1) for n in asg}
-            return kinds.pop() if len(kinds) == 1 else "mixed:" + ",".join(sorted(kinds))
+            return _mix(_graph_origin(ctx, f, n.value, depth + 1) for n in asg)
         if a.id in params:
+            # a parameter: every caller must hand in the same kind of graph
+            callers = ctx.callers_of(f.qualname)
+            if callers and depth < 3:
+                kinds = set()
+                for cf, call in callers:
+                    x = arg_for_param(f.node, call, a.id, skip_self=f.cls is not None)
+                    kinds.add("param" if x is None else _graph_origin(ctx, cf, x, depth + 1))
+                return _mix(kinds)
             return "param"
     if isinstance(a, ast.Attribute) and dotted(a.value) == "self":
         # a field: every assignment of it in the class must come from the gate
@@ -1090,14 +1115,9 @@ def _graph_origin(ctx: Ctx, f: FuncInfo, a: ast.AST, depth: int = 0) -> str:
     return "other:" + norm_src(a)
 
 
-def _pre_setup_filters(ctx: Ctx) -> bool:
-    """_pre_setup removes from the graph it returns every node of THAT graph that is not a setup node."""
-    ps = ctx.method("BaseDAG", "_pre_setup")
-    rets = [n for n in iter_own_nodes(ps.node) if isinstance(n, ast.Return) and n.value is not None]
-    if len(rets) != 1 or not isinstance(rets[0].value, ast.Name):
-        return False
-    gname = rets[0].value.id
-    for n in iter_own_nodes(ps.node):
+def _filters_in_place(fn: FuncInfo, gname: str) -> bool:
+    """fn removes from the graph named gname every node of THAT graph that is not a setup node."""
+    for n in iter_own_nodes(fn.node):
         if isinstance(n, ast.Call) and isinstance(n.func, ast.Attribute) and n.func.attr == "remove_nodes_from" and n.args \
                 and dotted(n.func.value) == gname:
             a = n.args[0]
@@ -1111,6 +1131,40 @@ def _pre_setup_filters(ctx: Ctx) -> bool:
                 if over_graph and flt.startswith(f"{var} not in ") and flt.endswith("setup_nodes") and dotted(a.elt) == var:
                     return True
     return False
+
+
+def _setup_filter_funcs(ctx: Ctx) -> Set[str]:
+    """Functions whose (single) returned graph holds setup nodes only: they filter it in place, or return the result of one that does."""
+    def build():
+        out: Set[str] = set()
+        changed = True
+        while changed:
+            changed = False
+            for fn in ctx.funcs():
+                if fn.qualname in out:
+                    continue
+                rets = [n for n in iter_own_nodes(fn.node) if isinstance(n, ast.Return) and n.value is not None]
+                if len(rets) != 1:
+                    continue
+                v = rets[0].value
+                ok = False
+                if isinstance(v, ast.Name):
+                    ok = _filters_in_place(fn, v.id)
+                    if not ok:
+                        asg = [n for n in ctx.reaching_defs(fn, v.id, v) if isinstance(n, ast.Assign)]
+                        ok = bool(asg) and all(isinstance(n.value, ast.Call) and _callee_of(ctx, fn, n.value) in out for n in asg)
+                elif isinstance(v, ast.Call):
+                    ok = _callee_of(ctx, fn, v) in out
+                if ok:
+                    out.add(fn.qualname)
+                    changed = True
+        return out
+    return ctx.memo("gt.setup_filter_funcs", build)
+
+
+def _pre_setup_filters(ctx: Ctx) -> bool:
+    """The graph _pre_setup returns holds setup nodes only."""
+    return ctx.method("BaseDAG", "_pre_setup").qualname in _setup_filter_funcs(ctx)
 
 
 def gt_debuginc(ctx: Ctx) -> RuleResult:
@@ -1312,10 +1366,111 @@ def gt_aliasnorm(ctx: Ctx) -> RuleResult:
                 r.violate(f"{f.short}: ids already resolved from aliases (self.{src}) are resolved again", f.loc(call),
                           "alias resolution tries 'tag' before 'id': an id that happens to equal another node's tag resolves to that other "
                           "node the second time, so the wrong nodes are excluded / selected", norm_src(call))
+    # ... nor handed to a function whose parameter ends in the resolver (interprocedural: fixpoint over the call graph)
+    resolving: Set[Tuple[str, str]] = set()
+    changed = True
+    while changed:
+        changed = False
+        for f in ctx.funcs():
+            a = f.node.args
+            fparams = {x.arg for x in a.posonlyargs + a.args + a.kwonlyargs}
+            for call, q in ctx.calls_in(f):
+                sinks: List[ast.AST] = []
+                if isinstance(call.func, ast.Attribute) and call.func.attr in RES and call.args:
+                    sinks.append(call.args[0])
+                elif q is not None and q in ctx.P.funcs:
+                    for (q2, p2) in list(resolving):
+                        if q2 == q:
+                            x = arg_for_param(ctx.P.funcs[q].node, call, p2, skip_self=ctx.P.funcs[q].cls is not None)
+                            if x is not None:
+                                sinks.append(x)
+                for x in sinks:
+                    if isinstance(x, ast.Name) and x.id in fparams and ctx.entry_reaches(f, x.id, call) and (f.qualname, x.id) not in resolving:
+                        resolving.add((f.qualname, x.id))
+                        changed = True
+    r.ob(len(resolving) >= 3, {"parameters that end in the alias resolver": sorted(f"{q.split('.')[-2]}.{q.split('.')[-1]}({p})" for q, p in resolving)})
+    for f in ctx.funcs():
+        if f.cls is None or f.cls.qualname not in resolved_fields or f.module.name.endswith("_twzsa_control"):
+            continue
+        flds = resolved_fields[f.cls.qualname]
+        for call, q in ctx.calls_in(f):
+            if q is None or q not in ctx.P.funcs:
+                continue
+            callee = ctx.P.funcs[q]
+            for (q2, p2) in sorted(resolving):
+                if q2 != q:
+                    continue
+                x = arg_for_param(callee.node, call, p2, skip_self=callee.cls is not None)
+                if isinstance(x, ast.Attribute) and dotted(x.value) == "self" and x.attr in flds:
+                    r.ob(False, {"resolved field": f"self.{x.attr}", "handed to": f"{callee.short}({p2})", "in": f.short})
+                    r.violate(f"{f.short}: ids already resolved from aliases (self.{x.attr}) are handed to {callee.short}, which resolves them again",
+                              f.loc(call),
+                              "alias resolution tries 'tag' before 'id': an id that happens to equal another node's tag resolves to that other "
+                              "node the second time, so the wrong nodes are set up / selected", norm_src(call))
+    # a resolved list is stored under the name of the list it was resolved from
+    for f in ctx.funcs():
+        if f.module.name.endswith("_twzsa_control"):
+            continue
+        for x in iter_own_nodes(f.node):
+            if isinstance(x, ast.Assign) and isinstance(x.value, ast.Call) and isinstance(x.value.func, ast.Attribute) \
+                    and x.value.func.attr in RES and x.value.args:
+                t = dotted(x.targets[0])
+                a0 = dotted(x.value.args[0])
+                if t is None or a0 is None:
+                    continue
+                tl, al = t.split(".")[-1], a0.split(".")[-1]
+                if tl in PARALLEL and al in PARALLEL:
+                    r.ob(tl == al, {"resolution": norm_src(x), "in": f.short})
+                    if tl != al:
+                        r.violate(f"{f.short}: the resolution of '{a0}' is stored as '{t}'", f.loc(x),
+                                  "each selection list (target / exclude / root) has its own meaning in the closure: storing the ids of one "
+                                  "under the name of another selects the wrong nodes", norm_src(x))
+    return r
+
+
+def gt_defaultsel(ctx: Ctx) -> RuleResult:
+    """An absent selection list stays None (no restriction): it is never replaced by a synthesised list of nodes.
+
+    make_subgraph treats every listed target as a demand of the user and refuses the call when the exclusion or the root
+    selection removed one of them; a default such as 'all setup nodes' therefore turns every effective exclusion into ValueError."""
+    from .sib import PARALLEL
+
+    r = RuleResult("GT-DEFAULTSEL")
+    g = ctx.P.classes[graph_q(ctx)]
+    ms = g.methods.get("make_subgraph")
+    r.require(ms is not None, "make_subgraph not found")
+    graph_attrs = set(g.methods) | set(ctx.P.all_fields(g))
+    n = 0
+    for f in ctx.funcs():
+        if f.module.name.endswith("_twzsa_control") or f.cls is g:
+            continue
+        for call, q in ctx.calls_in(f):
+            if q != ms.qualname:
+                continue
+            args = {p: arg_for_param(ms.node, call, p, skip_self=True) for p in PARALLEL}
+            others = lambda p: [x for x in PARALLEL if x != p and args[x] is not None
+                                and not (isinstance(args[x], ast.Constant) and args[x].value is None)]
+            for p, a in args.items():
+                if not isinstance(a, ast.Name):
+                    continue
+                n += 1
+                synth = [d for d in ctx.reaching_defs(f, a.id, call) if isinstance(d, ast.Assign) and isinstance(d.value, ast.Attribute)
+                         and d.value.attr in graph_attrs and d.value.attr.endswith("_nodes")]
+                bad = bool(synth) and bool(others(p))
+                r.ob(not bad, {"call": norm_src(call)[:70], "in": f.short, "selection": p,
+                               "synthesised default": norm_src(synth[0]) if synth else None})
+                if bad:
+                    r.violate(f"{f.short}: absent '{p}' is replaced by a synthesised node list while {others(p)} restrict the same graph",
+                              f.loc(synth[0]),
+                              "make_subgraph refuses a target the exclusion / root selection removed: with the synthesised list every "
+                              "selection that removes one of the listed nodes raises ValueError although the user named no target",
+                              norm_src(synth[0]))
+    r.require(n >= 3, f"only {n} selection arguments by name reach make_subgraph")
     return r
 
 
 RULES = {
+    "GT-DEFAULTSEL": gt_defaultsel,
     "GT-MODEL": gt_model, "GT-CARRY": gt_carry, "GT-PRIO-SINK": gt_prio_sink, "GT-POP": gt_pop, "GT-FORMULA": gt_formula,
     "GT-RECONF": gt_reconf, "GT-CYCLE": gt_cycle, "GT-SELECT": gt_select, "GT-ALIAS": gt_alias, "GT-GATE": gt_gate,
     "GT-DEBUGINC": gt_debuginc, "GT-PRESENCE": gt_presence, "GT-ALIASNORM": gt_aliasnorm,
